@@ -201,7 +201,13 @@ func init() {
 			bound = 3
 		}
 		c.Cov["rule"] = "every schedule with at most `preemption_bound_completed` preemptions of every program (threads x 1 atomic op each, all entry-point multisets, cluster configs); non-trivial = executions that contain at least one preemption; a fresh real cluster per execution"
-		schedmc.RunFamily(c, "C07", bound, 1, 0)
+		shards, maxExecs := 1, 0
+		if c.Tier == "thorough" {
+			// heavy programs are split over 4 workers; a (program, shard) exploration that reaches
+			// 150000 executions stops there and the check reports exhaustive:false
+			shards, maxExecs = 4, 150000
+		}
+		schedmc.RunFamily(c, "C07", bound, shards, maxExecs)
 		c.Cov["traces_validated_against_impl"] = 0
 		c.Assumef("sibling RPCs of one errgroup fan-out run in call order; data races are outside the cooperative scheduler's sequentially consistent model")
 	}})
